@@ -459,12 +459,59 @@ def check_curve_field(chk, prog, rulename='C08.curve-field'):
         raise AnalysisBroken('struct jwk_item has no fixed-size curve field any more')
     need = max(len(x) for x in CURVE_NAMES) + 1
     bad = 0
+    n = 1
     if size < need:
         bad = 1
         chk.add(Finding(rulename, 'libjwt/jwt-private.h', 'struct jwk_item', 'curve-too-short',
                         'item->curve has %d bytes; the longest supported curve name needs %d: jwks_item_curve() reports a truncated name'
                         % (size, need)))
-    chk.rule(rulename, 'item->curve holds every supported curve name untruncated', 1, bad, floor=1)
+    # ... and the copy that fills it carries that many characters: the bound handed to the copy primitive, per primitive
+    env = Env(prog)
+    model = build_model()
+    eff = effects.Effects(prog)
+    copies = []
+
+    class CurveRule(ImportRule):
+        def on_call(self, it, st, name, args, node):
+            ImportRule.on_call(self, it, st, name, args, node)
+            if args and isinstance(args[0], Ref) and args[0].loc == self.item and args[0].path.split('[')[0] == 'curve':
+                copies.append((name, list(args), node_loc(node), self.where))
+    for (unit, fn) in sorted(eff.ops_fields.get('process_ec', ())):
+        rule = CurveRule()
+        hooks = H.std_hooks(env, extra={'json_object_get': c04.h_json_object_get})
+        it = Interp(prog, unit, model=model, rule=rule, hooks=hooks, budget=900000)
+        st, item, jwk = c07.item_state(env)
+        rule.item = item
+        rule.where = (unit, fn)
+        it.run(fn, [Ref(jwk), Ref(item)], st)
+    seen = set()
+    for name, args, (f, l), (unit, fn) in copies:
+        if (name, l) in seen:
+            continue
+        seen.add((name, l))
+        n += 1
+        bound = args[2] if name in ('strncpy', 'memcpy', 'memmove', 'strlcpy') and len(args) > 2 else \
+            (args[1] if name in ('snprintf', 'strlcpy') and len(args) > 1 else None)
+        if name in ('strcpy', 'strcat', 'sprintf'):
+            raise AnalysisBroken('%s copies into item->curve without a bound (%s:%s): whether the name fits is not decided by this rule' % (name, f, l))
+        if name in ('memset', 'strlen', 'strcmp', 'strncmp'):
+            n -= 1
+            continue
+        if not isinstance(bound, Int):
+            raise AnalysisBroken('%s into item->curve with a bound that is not a constant (%r)' % (name, bound))
+        chars = bound.v - 1 if name in ('snprintf', 'strlcpy') else bound.v
+        if chars < need - 1:
+            bad += 1
+            chk.add(Finding(rulename, f or unit, fn, 'copy-truncates',
+                            '%s(item->curve, ..., %d) carries at most %d characters; the longest supported curve name has %d: '
+                            'jwks_item_curve() reports a truncated name' % (name, bound.v, chars, need - 1), line=l))
+        if chars + 1 > size:
+            bad += 1
+            chk.add(Finding(rulename, f or unit, fn, 'copy-overruns',
+                            '%s(item->curve, ..., %d) can store %d characters and a terminator into %d bytes' % (name, bound.v, chars, size), line=l))
+    if n < 2:
+        raise AnalysisBroken('no copy into item->curve found in the EC importers')
+    chk.rule(rulename, 'item->curve and the bounded copy that fills it hold every supported curve name untruncated and terminated', n, bad, floor=2)
 
 
 PRIVATE_PARAM = {'process_rsa': 'd', 'process_ec': 'priv', 'process_eddsa': 'priv'}
